@@ -761,6 +761,12 @@ func (x *explorer) enterLoop(st *state, fr *frame, h, prev *ssa.BasicBlock, body
 		x.carInit[ct.N] = init
 		x.carOf[ct.N] = carriedOrigin{phi: phi}
 		x.loopCars[li.id] = append(x.loopCars[li.id], ct.N)
+		// "for i := 0; i < len(s); i++" is the index form of "for i := range s": give i the same term a range
+		// loop's index has, so that s[i] is the element being visited and i < len(s) is "more"
+		if countedIndexPhi(phi, h, body) && init != nil && init.IsConst("0") {
+			x.set(st, fr, phi, &T{Op: "idx", N: ct.N, V: phi, Typ: types.Typ[types.Int]})
+			continue
+		}
 		x.set(st, fr, phi, ct)
 	}
 	// cells discovered (in an earlier iteration of the exploration) to be written in this loop
@@ -1835,6 +1841,24 @@ func (x *explorer) call(st *state, fr *frame, b, prev *ssa.BasicBlock, idx int, 
 		setRes(st, &T{Op: "clone", N: x.nTerms, Args: args, V: val, Typ: typ})
 		return false
 	}
+	// equivalent spellings of library calls
+	if name == "strings.Replace" && len(args) == 4 && args[3].IsConst("-1") {
+		name, args = "strings.ReplaceAll", args[:3]
+	}
+	// sorting a slice that holds exactly the keys of a map gives slices.Sorted(maps.Keys(m)), however the keys were
+	// collected (slices.Collect(maps.Keys(m)), or a loop appending every key)
+	if (name == "slices.Sort" || name == "sort.Strings") && len(args) == 1 {
+		if m := x.keysOfMap(args[0]); m != nil {
+			x.nTerms++
+			keys := &T{Op: "call", Name: "maps.Keys", N: x.nTerms, Args: []*T{m}}
+			x.nTerms++
+			sorted := &T{Op: "call", Name: "slices.Sorted", N: x.nTerms, Args: []*T{keys}, Typ: args[0].Typ}
+			if sv := ci.Common().Args[0]; sv != nil {
+				x.set(st, fr, sv, sorted)
+			}
+			return false
+		}
+	}
 	x.nTerms++
 	op := "call"
 	kind := "call"
@@ -1981,4 +2005,91 @@ func stdHelperPkg(fn *ssa.Function) bool {
 		}
 	}
 	return false
+}
+
+// keysOfMap: t is a slice holding exactly the keys of a map m, in whatever order: slices.Collect(maps.Keys(m)),
+// or the result of a loop over m that appends the key in every iteration to an initially empty slice. Returns m.
+func (x *explorer) keysOfMap(t *T) *T {
+	if t == nil {
+		return nil
+	}
+	if t.Op == "call" && t.Name == "slices.Collect" && len(t.Args) == 1 && t.Args[0].Op == "call" && t.Args[0].Name == "maps.Keys" && len(t.Args[0].Args) == 1 {
+		return t.Args[0].Args[0]
+	}
+	if t.Op != "carried" {
+		return nil
+	}
+	info := carriedInfo{Init: x.carInit[t.N], Src: x.carSrc[t.N]}
+	if info.Init == nil || len(info.Src) == 0 {
+		return nil
+	}
+	if !(info.Init.IsEmptyList() || info.Init.IsNil()) {
+		return nil
+	}
+	var m *T
+	for _, s := range info.Src {
+		if s.Op == "carried" && s.N == t.N {
+			return nil // an iteration that skips a key: not all keys
+		}
+		if s.Op != "append" || len(s.Args) != 2 || s.Args[0].Op != "carried" || s.Args[0].N != t.N {
+			return nil
+		}
+		l := s.Args[1]
+		if l.Op != "lit" || len(l.Args) != 1 || l.Args[0].Op != "key" || len(l.Args[0].Args) != 1 {
+			return nil
+		}
+		mm := l.Args[0].Args[0]
+		if m != nil && m.String() != mm.String() {
+			return nil
+		}
+		m = mm
+	}
+	return m
+}
+
+// countedIndexPhi: phi is the counter of "for i := 0; i < len(x); i++": on every way back to the header it is
+// phi+1, nothing else assigns it, and the header leaves the loop on !(phi < len(x)).
+func countedIndexPhi(phi *ssa.Phi, h *ssa.BasicBlock, body map[*ssa.BasicBlock]bool) bool {
+	bt, ok := phi.Type().Underlying().(*types.Basic)
+	if !ok || bt.Info()&types.IsInteger == 0 || phi.Comment == "rangeindex" {
+		return false
+	}
+	n := 0
+	for i, e := range phi.Edges {
+		if !body[h.Preds[i]] {
+			continue
+		}
+		bo, ok := e.(*ssa.BinOp)
+		if !ok || bo.Op != token.ADD || bo.X != ssa.Value(phi) {
+			return false
+		}
+		c, ok := bo.Y.(*ssa.Const)
+		if !ok || c.Value == nil || c.Value.ExactString() != "1" {
+			return false
+		}
+		n++
+	}
+	if n == 0 {
+		return false
+	}
+	iff, ok := h.Instrs[len(h.Instrs)-1].(*ssa.If)
+	if !ok {
+		return false
+	}
+	cond, ok := iff.Cond.(*ssa.BinOp)
+	if !ok || cond.Op != token.LSS || cond.X != ssa.Value(phi) {
+		return false
+	}
+	ln, ok := cond.Y.(*ssa.Call)
+	if !ok {
+		return false
+	}
+	bi, ok := ln.Common().Value.(*ssa.Builtin)
+	if !ok || bi.Name() != "len" {
+		return false
+	}
+	if _, isSlice := ln.Common().Args[0].Type().Underlying().(*types.Slice); !isSlice {
+		return false
+	}
+	return body[h.Succs[0]]
 }
